@@ -25,8 +25,21 @@ PROPS = {
 # overlay: contracts/registry/<ID>.txt lists (one per line) the contract modules carrying property <ID>
 import os as _os
 _rd = _os.path.join(_os.path.dirname(_os.path.abspath(__file__)), "registry")
+# An overlay for a property that is ALREADY registered above (an extension under development) only takes effect once
+# the id is released in claimed.json - or, for the developer, with PYVC_DEV=1 - so that work in progress never changes
+# what the registered check of a claimed property verifies.
+try:
+    import json as _json
+    with open(_os.path.join(_os.path.dirname(_os.path.dirname(_os.path.abspath(__file__))), "claimed.json")) as _fh:
+        _released = set(_json.load(_fh))
+except Exception:
+    _released = set()
+_builtin = set(PROPS)
 if _os.path.isdir(_rd):
     for _f in sorted(_os.listdir(_rd)):
         if _f.endswith(".txt"):
+            _id = _f[:-4]
+            if _id in _builtin and _id not in _released and not _os.environ.get("PYVC_DEV"):
+                continue
             with open(_os.path.join(_rd, _f)) as _fh:
-                PROPS[_f[:-4]] = [l.strip() for l in _fh if l.strip() and not l.startswith("#")]
+                PROPS[_id] = [l.strip() for l in _fh if l.strip() and not l.startswith("#")]
